@@ -48,7 +48,8 @@ struct Drv {
   sleep: Vec<String>,     // how the successive TimedOut answers to timed polls behave: "no" | "yes" | "over" | "late" (the last entry repeats)
   nsleep: usize,
   intr_ok: bool,          // no two interruptions without a device report in between (the loop sleeps 4 s by design)
-  arr_k: Vec<Value>, arr_t: Vec<Value>   // arrivals delivered since the last logged call
+  arr_k: Vec<Value>, arr_t: Vec<Value>,  // arrivals delivered since the last logged call
+  malformed_write: bool   // system-call mode: the bytes of the write being logged were not a well-formed batch
 }
 
 impl Drv {
@@ -199,6 +200,7 @@ impl ScriptedDriver for Drv {
   fn send(&mut self, evs: &Vec<Event>) -> Result<(), String> {
     let (mut rec, fail) = self.begin("send");
     rec["evs"] = jevs(evs);
+    if self.malformed_write { rec["evs"].as_array_mut().unwrap().push(json!({"t": "?", "k": "malformed write"})); self.malformed_write = false; }
     rec["res"] = json!(if fail { "err" } else { "ok" });
     if fail { rec["err"] = json!(self.errmsg()); }
     self.end(rec);
@@ -218,15 +220,20 @@ impl Drv {
   }
 }
 
-fn run_one(id: &str, layout: &Layout, labels: &[Lbl], fault: usize, sleep: &[String], out: &mut dyn Write) -> usize {
-  let mut d = Drv {
+fn new_drv(layout: &Layout, labels: &[Lbl], fault: usize, sleep: &[String]) -> Drv {
+  Drv {
     t0: Instant::now(), sched: labels.iter().cloned().collect(), kq: VecDeque::new(), tq: VecDeque::new(),
     k_ready: false, t_ready: false, ended: false, log: vec![],
     shadow: Mapper::for_layout(layout), fresh: Mapper::for_layout(layout), layout: layout.clone(), in_tab: false,
-    calls: 0, fault, cap: 400 + 20 * labels.len(), sleep: sleep.to_vec(), nsleep: 0, intr_ok: true, arr_k: vec![], arr_t: vec![]
-  };
-  let r = std::panic::catch_unwind(std::panic::AssertUnwindSafe(|| run_one_device(&mut d, layout.clone())));
-  writeln!(out, "{}", json!({"c": "reset", "id": id, "layout": jlayout(layout), "fault": fault, "sleep": sleep})).unwrap();
+    calls: 0, fault, cap: 400 + 20 * labels.len(), sleep: sleep.to_vec(), nsleep: 0, intr_ok: true, arr_k: vec![], arr_t: vec![],
+    malformed_write: false
+  }
+}
+
+fn write_trace(id: &str, layout: &Layout, fault: usize, sleep: &[String], d: &Drv, r: std::thread::Result<Result<(), String>>, extra: Value, out: &mut dyn Write) {
+  let mut reset = json!({"c": "reset", "id": id, "layout": jlayout(layout), "fault": fault, "sleep": sleep});
+  for (k, v) in extra.as_object().unwrap() { reset[k] = v.clone(); }
+  writeln!(out, "{}", reset).unwrap();
   for l in &d.log { writeln!(out, "{}", l).unwrap(); }
   let ret = match r {
     Ok(Ok(())) => json!({"c": "ret", "ok": true, "err": "", "panic": false}),
@@ -234,6 +241,12 @@ fn run_one(id: &str, layout: &Layout, labels: &[Lbl], fault: usize, sleep: &[Str
     Err(e) => json!({"c": "ret", "ok": false, "err": panic_msg(e), "panic": true})
   };
   writeln!(out, "{}", ret).unwrap();
+}
+
+fn run_one(id: &str, layout: &Layout, labels: &[Lbl], fault: usize, sleep: &[String], out: &mut dyn Write) -> usize {
+  let mut d = new_drv(layout, labels, fault, sleep);
+  let r = std::panic::catch_unwind(std::panic::AssertUnwindSafe(|| run_one_device(&mut d, layout.clone())));
+  write_trace(id, layout, fault, sleep, &d, r, json!({"mode": "scripted", "slack": 0, "errtext": true, "noise": 0}), out);
   d.calls
 }
 
@@ -249,13 +262,218 @@ pub fn cmd_loop(path: &str) {
       Value::Array(a) => a.iter().map(|x| x.as_str().unwrap_or("no").to_string()).collect(),
       v => vec![v.as_str().unwrap_or("no").to_string()]
     };
+    let sys = c["mode"].as_str() == Some("sys");
+    let noise = c["noise"].as_u64().unwrap_or(0) as u8;
+    let with_tablet = c["tablet"].as_bool().unwrap_or(true);
+    let mut run = |tid: &str, k: usize, out: &mut dyn Write| -> usize {
+      if sys { run_one_sys(tid, &layout, &labels, k, &sleep, noise, with_tablet, out) } else { run_one(tid, &layout, &labels, k, &sleep, out) }
+    };
     if c["faults"].as_str() == Some("all") {
-      let n = run_one(&id, &layout, &labels, 0, &sleep, &mut out);
-      for k in 1..=n { run_one(&format!("{}/f{}", id, k), &layout, &labels, k, &sleep, &mut out); }
+      let n = run(&id, 0, &mut out);
+      // in system-call mode call 1 (the registration) is not scripted
+      for k in (if sys { 2 } else { 1 })..=n { run(&format!("{}/f{}", id, k), k, &mut out); }
     } else {
       let k = c["faults"].as_u64().unwrap_or(0) as usize;
       let tid = if k == 0 { id.clone() } else { format!("{}/f{}", id, k) };
-      run_one(&tid, &layout, &labels, k, &sleep, &mut out);
+      run(&tid, k, &mut out);
     }
   }
+}
+
+// ---------------------------------------------------------------------------------------------
+// The same environment one level lower: the REAL driver (RealDriver: mio's Poll, DevInputReader,
+// TabletModeSwitchReader, DevInputWriter) runs on three descriptors, and this process answers the
+// three system calls it makes on them - epoll_wait, read, write - from the same scripted `Drv`.
+// The definitions below replace the libc symbols for the whole program (the executable's own
+// definition wins at link time); on every thread that has no scripted run in progress, and for
+// every other descriptor, they pass straight through to the kernel.
+//
+// What the kernel side is modelled as (drivers/input/evdev.c):
+//   evdev_poll: EPOLLIN when the client buffer holds events; EPOLLHUP|EPOLLERR when the device is
+//               gone (with EPOLLIN as well only if unread events remain); edge-triggered by mio;
+//   evdev_read: one input_event (24 bytes) per read of 24 bytes; EAGAIN when empty and the device
+//               exists; ENODEV when it does not; key events come framed by MSC_SCAN / SYN_REPORT
+//               and, when a key stays down, auto-repeat events (value 2), per `noise`.
+// ---------------------------------------------------------------------------------------------
+use std::cell::RefCell;
+use num_traits::FromPrimitive;
+
+struct Sys {
+  d: Drv,
+  kfd: i32, tfd: i32, wfd: i32,
+  kbytes: VecDeque<[u8; 24]>, tbytes: VecDeque<[u8; 24]>,
+  noise: u8,
+  unknown_code: u16
+}
+
+thread_local! { static SYS: RefCell<Option<Sys>> = RefCell::new(None); }
+
+fn frame(type_: u16, code: u16, value: i32) -> [u8; 24] {
+  let mut b = [0u8; 24];
+  b[16..18].copy_from_slice(&type_.to_ne_bytes());
+  b[18..20].copy_from_slice(&code.to_ne_bytes());
+  b[20..24].copy_from_slice(&value.to_ne_bytes());
+  b
+}
+
+const E_AGAIN: i32 = 11; const E_NODEV: i32 = 19; const E_IO: i32 = 5; const E_INTR: i32 = 4;
+
+impl Sys {
+  // -> (return value, errno)
+  fn epoll_wait(&mut self, events: *mut libc::epoll_event, maxevents: i32, timeout_ms: i32) -> (i32, i32) {
+    let timeout = if timeout_ms < 0 { None } else { Some(Duration::from_millis(timeout_ms as u64)) };
+    match ScriptedDriver::poll(&mut self.d, timeout) {
+      Err(_) => (-1, E_IO),
+      Ok(VPoll::Interrupted) => (-1, E_INTR),
+      Ok(VPoll::TimedOut) => (0, 0),
+      Ok(VPoll::Devices(ds)) => {
+        let gone = self.d.kq.iter().any(|e| e.is_none());
+        let unread = self.d.kq.iter().any(|e| e.is_some()) || !self.kbytes.is_empty();
+        let mut n = 0;
+        for k in ds {
+          if n >= maxevents { break; }
+          let (mask, token) = if k {
+            (if gone { (libc::EPOLLHUP | libc::EPOLLERR) | (if unread { libc::EPOLLIN } else { 0 }) } else { libc::EPOLLIN }, 0u64)
+          } else { (libc::EPOLLIN, 1u64) };
+          unsafe { std::ptr::write_unaligned(events.offset(n as isize), libc::epoll_event { events: mask as u32, u64: token }); }
+          n += 1;
+        }
+        (n, 0)
+      }
+    }
+  }
+
+  fn read_k(&mut self, buf: *mut u8, count: usize) -> (isize, i32) {
+    if count < 24 { return (-1, 22); }
+    if self.kbytes.is_empty() {
+      match ScriptedDriver::next_keyboard(&mut self.d) {
+        Err(_) => return (-1, E_IO),
+        Ok(VNext::Busy) => return (-1, E_AGAIN),
+        Ok(VNext::End) => return (-1, E_NODEV),
+        Ok(VNext::One(e)) => {
+          let (code, value) = match e { Event::Pressed(k) => (k as u16, 1), Event::Released(k) => (k as u16, 0) };
+          if self.noise >= 1 { self.kbytes.push_back(frame(4, 4, code as i32)); }            // MSC_SCAN
+          if self.noise >= 2 { self.kbytes.push_back(frame(1, self.unknown_code, 1)); }       // a key the tool has no name for
+          self.kbytes.push_back(frame(1, code, value));
+          if self.noise >= 1 { self.kbytes.push_back(frame(0, 0, 0)); }                       // SYN_REPORT
+          if self.noise >= 2 && value == 1 { self.kbytes.push_back(frame(1, code, 2)); self.kbytes.push_back(frame(0, 0, 0)); }  // auto-repeat
+        }
+      }
+    }
+    let f = self.kbytes.pop_front().unwrap();
+    unsafe { std::ptr::copy_nonoverlapping(f.as_ptr(), buf, 24); }
+    (24, 0)
+  }
+
+  fn read_t(&mut self, buf: *mut u8, count: usize) -> (isize, i32) {
+    if count < 24 { return (-1, 22); }
+    if self.tbytes.is_empty() {
+      match ScriptedDriver::next_tablet(&mut self.d) {
+        Err(_) => return (-1, E_IO),
+        Ok(VNext::Busy) => return (-1, E_AGAIN),
+        Ok(VNext::End) => return (-1, E_NODEV),
+        Ok(VNext::One(on)) => {
+          if self.noise >= 1 { self.tbytes.push_back(frame(5, 0, 1)); }                       // another switch (SW_LID)
+          self.tbytes.push_back(frame(5, 1, if on { 1 } else { 0 }));
+          if self.noise >= 1 { self.tbytes.push_back(frame(0, 0, 0)); }
+        }
+      }
+    }
+    let f = self.tbytes.pop_front().unwrap();
+    unsafe { std::ptr::copy_nonoverlapping(f.as_ptr(), buf, 24); }
+    (24, 0)
+  }
+
+  // one write = one batch: key frames, closed by exactly one SYN_REPORT
+  fn write_w(&mut self, buf: *const u8, count: usize) -> (isize, i32) {
+    let bytes = unsafe { std::slice::from_raw_parts(buf, count) };
+    let mut evs: Vec<Event> = vec![];
+    let mut well_formed = count % 24 == 0 && count >= 24;
+    if well_formed {
+      let n = count / 24;
+      for i in 0..n {
+        let f = &bytes[i * 24..(i + 1) * 24];
+        let type_ = u16::from_ne_bytes([f[16], f[17]]);
+        let code = u16::from_ne_bytes([f[18], f[19]]);
+        let value = i32::from_ne_bytes([f[20], f[21], f[22], f[23]]);
+        if i == n - 1 { if !(type_ == 0 && code == 0 && value == 0) { well_formed = false; } }
+        else if type_ == 1 && (value == 0 || value == 1) {
+          match <KeyCode as FromPrimitive>::from_u16(code) {
+            Some(k) => evs.push(if value == 1 { Event::Pressed(k) } else { Event::Released(k) }),
+            None => well_formed = false
+          }
+        } else { well_formed = false; }
+      }
+    }
+    self.d.malformed_write = !well_formed;
+    match ScriptedDriver::send(&mut self.d, &evs) {
+      Ok(()) => (count as isize, 0),
+      Err(_) => (-1, E_IO)
+    }
+  }
+}
+
+unsafe fn set_errno(e: i32) { *libc::__errno_location() = e; }
+
+#[no_mangle]
+pub unsafe extern "C" fn epoll_wait(epfd: libc::c_int, events: *mut libc::epoll_event, maxevents: libc::c_int, timeout: libc::c_int) -> libc::c_int {
+  let r = SYS.try_with(|s| match s.try_borrow_mut() { Ok(mut g) => g.as_mut().map(|sys| sys.epoll_wait(events, maxevents, timeout)), Err(_) => None });
+  match r {
+    Ok(Some((ret, errno))) => { if ret < 0 { set_errno(errno); } ret },
+    _ => libc::syscall(libc::SYS_epoll_wait, epfd, events, maxevents, timeout) as libc::c_int
+  }
+}
+
+#[no_mangle]
+pub unsafe extern "C" fn read(fd: libc::c_int, buf: *mut libc::c_void, count: libc::size_t) -> libc::ssize_t {
+  let r = SYS.try_with(|s| match s.try_borrow_mut() {
+    Ok(mut g) => match g.as_mut() {
+      Some(sys) if fd == sys.kfd => Some(sys.read_k(buf as *mut u8, count)),
+      Some(sys) if fd == sys.tfd => Some(sys.read_t(buf as *mut u8, count)),
+      _ => None
+    },
+    Err(_) => None
+  });
+  match r {
+    Ok(Some((ret, errno))) => { if ret < 0 { set_errno(errno); } ret },
+    _ => libc::syscall(libc::SYS_read, fd, buf, count) as libc::ssize_t
+  }
+}
+
+#[no_mangle]
+pub unsafe extern "C" fn write(fd: libc::c_int, buf: *const libc::c_void, count: libc::size_t) -> libc::ssize_t {
+  let r = SYS.try_with(|s| match s.try_borrow_mut() {
+    Ok(mut g) => match g.as_mut() {
+      Some(sys) if fd == sys.wfd => Some(sys.write_w(buf as *const u8, count)),
+      _ => None
+    },
+    Err(_) => None
+  });
+  match r {
+    Ok(Some((ret, errno))) => { if ret < 0 { set_errno(errno); } ret },
+    _ => libc::syscall(libc::SYS_write, fd, buf, count) as libc::ssize_t
+  }
+}
+
+fn new_fd() -> i32 {
+  // any descriptor epoll accepts; the kernel's side of it is never read or written
+  unsafe { libc::eventfd(0, libc::EFD_NONBLOCK | libc::EFD_CLOEXEC) }
+}
+
+fn run_one_sys(id: &str, layout: &Layout, labels: &[Lbl], fault: usize, sleep: &[String], noise: u8, with_tablet: bool, out: &mut dyn Write) -> usize {
+  let mut d = new_drv(layout, labels, fault, sleep);
+  // the registration (epoll_create1 / epoll_ctl on the descriptors) goes to the kernel unscripted;
+  // it is logged as the loop's first call so that the traces have one shape
+  d.fault = 0;
+  let _ = ScriptedDriver::register_poll(&mut d);
+  d.fault = fault;
+  let (kfd, tfd, wfd) = (new_fd(), if with_tablet { new_fd() } else { -1 }, new_fd());
+  let unknown_code = (1u16..768).rev().find(|c| <KeyCode as FromPrimitive>::from_u16(*c).is_none()).unwrap_or(767);
+  SYS.with(|s| *s.borrow_mut() = Some(Sys { d, kfd, tfd, wfd, kbytes: VecDeque::new(), tbytes: VecDeque::new(), noise, unknown_code }));
+  let lay = layout.clone();
+  let r = std::panic::catch_unwind(std::panic::AssertUnwindSafe(|| crate::remapping_loop::verif::run_real_driver(kfd, wfd, if with_tablet { Some(tfd) } else { None }, lay)));
+  let sys = SYS.with(|s| s.borrow_mut().take()).unwrap();
+  unsafe { libc::close(kfd); if tfd >= 0 { libc::close(tfd); } libc::close(wfd); }
+  write_trace(id, layout, fault, sleep, &sys.d, r, json!({"mode": "sys", "slack": 999, "errtext": false, "noise": noise}), out);
+  sys.d.calls
 }
